@@ -154,7 +154,7 @@ func fileContent(format, what string) []byte {
 
 func runC06(r *core.Run) {
 	L := core.Pick(r, 5, 6)
-	r.Bound("all-schedules", fmt.Sprintf("every input over each format's token alphabet of length 0..%d plus the 12+ well-formed small corpus files (8-14 bytes... up to 60 for SAM) x EVERY partition of the stream into successive Read results x {EOF alone, EOF together with the last bytes}", L))
+	r.Bound("all-schedules", fmt.Sprintf("every input over each format's token alphabet of length 0..%d plus the 12+ well-formed small corpus files in their LF and CRLF forms (up to 18 bytes) x EVERY partition of the stream into successive Read results x {EOF alone, EOF together with the last bytes}", L))
 	r.Assume("the controlled reader never returns (0, nil); error texts are not compared, only positions")
 	core.Clause(r, "all-inputs-all-schedules", core.Opts{Rule: "engine E1: for each input every delivery schedule is executed against the real decoder and compared with the one-piece reference decode; evaluations counts executions; non-trivial = input of at least 2 bytes"},
 		func(emit func(c06Case) bool) {
@@ -166,18 +166,21 @@ func runC06(r *core.Run) {
 					return
 				}
 				for _, d := range corpus(f.Name, "small") {
-					if len(d) > 16 {
-						continue
-					}
-					if !emit(c06Case{Format: f.Name, Input: core.S(d), AllSizes: true, Bound: -1}) {
-						return
+					crlf := bytes.ReplaceAll(bytes.ReplaceAll(d, []byte("\r\n"), []byte("\n")), []byte("\n"), []byte("\r\n"))
+					for _, v := range [][]byte{d, crlf} {
+						if len(v) > 18 {
+							continue
+						}
+						if !emit(c06Case{Format: f.Name, Input: core.S(v), AllSizes: true, Bound: -1}) {
+							return
+						}
 					}
 				}
 			}
 		}, func(c c06Case) core.Outcome { return checkC06(r, c) })
 
 	bound := core.Pick(r, 2, 3)
-	r.Bound("long-files", fmt.Sprintf("every medium (40-200 byte) corpus file with <= %d deviations (short reads of every size / EOF with data, at any Read); the small SAM alignment files with <= 3; the ~9 KiB file of every format with <= %d deviations over the size menu {1,2,3,half,max-1}", bound+1, bound))
+	r.Bound("long-files", fmt.Sprintf("every medium (40-200 byte) corpus file (LF form, and CRLF form with <= 2 deviations over all sizes) with <= %d deviations (short reads of every size / EOF with data, at any Read); the small SAM alignment files with <= 3; the ~9 KiB file of every format with <= %d deviations over the size menu {1,2,3,half,max-1}", bound+1, bound))
 	core.Clause(r, "long-files-bounded", core.Opts{Rule: "deviation-bounded exploration (iterated: 0, 1, .. bound deviations) of the Read schedule of longer well-formed files; non-trivial = all"},
 		func(emit func(c06Case) bool) {
 			for _, f := range formats {
@@ -185,6 +188,14 @@ func runC06(r *core.Run) {
 					if len(d) > 16 {
 						emit(c06Case{Format: f.Name, Corpus: fmt.Sprint("small/", i), AllSizes: true, Bound: 3})
 					}
+					crlf := bytes.ReplaceAll(bytes.ReplaceAll(d, []byte("\r\n"), []byte("\n")), []byte("\n"), []byte("\r\n"))
+					if len(crlf) > 18 {
+						emit(c06Case{Format: f.Name, Input: core.S(crlf), AllSizes: true, Bound: 3})
+					}
+				}
+				for _, d := range corpus(f.Name, "medium") {
+					crlf := bytes.ReplaceAll(bytes.ReplaceAll(d, []byte("\r\n"), []byte("\n")), []byte("\n"), []byte("\r\n"))
+					emit(c06Case{Format: f.Name, Input: core.S(crlf), AllSizes: true, Bound: 2})
 				}
 				for i := range corpus(f.Name, "medium") {
 					emit(c06Case{Format: f.Name, Corpus: fmt.Sprint("medium/", i), AllSizes: true, Bound: min(bound, 2)})
